@@ -70,7 +70,8 @@ def lemma_level(v):
     if f.get('preludes') and not f.get('clauses'):
         return True
     for c in f.get('clauses', []):
-        if 'controller_number_mod.rs' in c['owner'] or 'bit_util.rs' in c['owner'] or 'macro ' in c['owner']:
+        # the two stand-alone predicates are used by no other code: no paired harness observes them
+        if 'fn can_be_part_of_14_bit_control_change_message' in c['owner'] or 'fn is_parameter_number_message_controller_number' in c['owner']:
             return True
     return False
 
